@@ -744,6 +744,15 @@ pub fn cases(tier: Tier) -> Vec<Case> {
     for b in [vec![0u8, 1, 0], vec![3, 2, 0, 1], vec![0, 1, 3, 0, 1, 0, 2, 1], vec![2, 0, 1, 0, 1, 0, 1, 0, 1, 0, 1, 0, 1, 0, 1, 0]] {
         v.push(Case::Rayon { kinds: b });
     }
+    // exactly ONE failing element, at every position of a 7-element batch: which element the error names is then
+    // independent of timing, so a wrong index shows on every run and for every pool size that splits the batch there
+    for failing in [2u8, 3] {
+        for pos in 0..7usize {
+            let mut b: Vec<u8> = vec![0, 1, 0, 1, 0, 1, 0];
+            b[pos] = failing;
+            v.push(Case::Rayon { kinds: b });
+        }
+    }
     for c in ["Link.speed_sets", "TrainConfig.n_cars_by_type", "LocationMap"] {
         v.push(Case::HashOrder { container: c.into() });
     }
@@ -764,7 +773,7 @@ impl Prop for C18 {
         "C18"
     }
     fn rule(&self, tier: Tier) -> String {
-        format!("Part 1 (decides): the only concurrent seam, LocomotiveSimulationVec::walk(true) = rayon par_iter_mut().try_for_each(walk), is explored through rayon's contract (each element visited at most once; after an error no new element starts; started ones finish): one scheduler thread per element sharing one flag, element bodies = the REAL LocomotiveSimulation::walk. shuttle check_dfs (unbounded DFS, every interleaving) for EVERY batch (quick tier: every multiset) of N <= 3 elements over {} element kinds (ok/failing at step 1/failing later x conv/BEL); for N = 4 (every batch over 4 kinds{}) and three N = 5 batches the same contract is enumerated explicitly over its 2N events ((2N)!/2^N interleavings); the two engines must produce the same outcome set for every N <= 3 batch. states = schedules. Binding: the real walk(true) runs inside rayon pools of 1..16 threads ({} repetitions each) and every observed outcome must be a member of the explored outcome set; walk(false) must equal the element-wise serial reference. Part 2 (decides): for Link.speed_sets and LocationMap with 3 keys and TrainConfig.n_cars_by_type with 4 keys (car masses chosen so that f64 summation is order-sensitive), map instances are created until all 3! / 4! iteration orders are realised and the consuming pipeline must give identical outputs for each. Part 4 (decides for the pool sizes stated; work-stealing order inside one pool size is repeated, not controlled): a ConsistSimulation over seven conventional units whose fuel powers sum order-sensitively (self-checked), a set-speed train run, an estimated-time construction and a three-train dispatch run inside rayon pools of 1..16 threads ({} repetitions each) and in the default pool; every serialized output must equal the one from a pool of 1 thread byte for byte -- today none of them contains parallel code, the part exists so that parallelism introduced into them is measured against the serial result. Part 3 (sampled tripwire, not a verdict): {} scenarios of est-time construction, dispatch and speed-limited simulation run twice in fresh threads and compared byte for byte. distinct_nontrivial = distinct (part, batch size, number of outcomes / orders) signatures.", kinds_alphabet(tier).len(), if tier.is_thorough() { "" } else { ", every 8th in the quick tier" }, if tier.is_thorough() { 20 } else { 6 }, if tier.is_thorough() { 12 } else { 3 }, if tier.is_thorough() { 72 } else { 18 })
+        format!("Part 1 (decides): the only concurrent seam, LocomotiveSimulationVec::walk(true) = rayon par_iter_mut().try_for_each(walk), is explored through rayon's contract (each element visited at most once; after an error no new element starts; started ones finish): one scheduler thread per element sharing one flag, element bodies = the REAL LocomotiveSimulation::walk. shuttle check_dfs (unbounded DFS, every interleaving) for EVERY batch (quick tier: every multiset) of N <= 3 elements over {} element kinds (ok/failing at step 1/failing later x conv/BEL); for N = 4 (every batch over 4 kinds{}) and three N = 5 batches the same contract is enumerated explicitly over its 2N events ((2N)!/2^N interleavings); the two engines must produce the same outcome set for every N <= 3 batch. states = schedules. Binding: the real walk(true) runs inside rayon pools of 1..16 threads (four mixed batches and 14 seven-element batches with exactly one failing element at every position, where the element the error names does not depend on timing) ({} repetitions each) and every observed outcome must be a member of the explored outcome set; walk(false) must equal the element-wise serial reference. Part 2 (decides): for Link.speed_sets and LocationMap with 3 keys and TrainConfig.n_cars_by_type with 4 keys (car masses chosen so that f64 summation is order-sensitive), map instances are created until all 3! / 4! iteration orders are realised and the consuming pipeline must give identical outputs for each. Part 4 (decides for the pool sizes stated; work-stealing order inside one pool size is repeated, not controlled): a ConsistSimulation over seven conventional units whose fuel powers sum order-sensitively (self-checked), a set-speed train run, an estimated-time construction and a three-train dispatch run inside rayon pools of 1..16 threads ({} repetitions each) and in the default pool; every serialized output must equal the one from a pool of 1 thread byte for byte -- today none of them contains parallel code, the part exists so that parallelism introduced into them is measured against the serial result. Part 3 (sampled tripwire, not a verdict): {} scenarios of est-time construction, dispatch and speed-limited simulation run twice in fresh threads and compared byte for byte. distinct_nontrivial = distinct (part, batch size, number of outcomes / orders) signatures.", kinds_alphabet(tier).len(), if tier.is_thorough() { "" } else { ", every 8th in the quick tier" }, if tier.is_thorough() { 20 } else { 6 }, if tier.is_thorough() { 12 } else { 3 }, if tier.is_thorough() { 72 } else { 18 })
     }
     fn assumptions(&self) -> Vec<String> {
         vec![
@@ -798,8 +807,13 @@ impl Prop for C18 {
                 _ => {}
             }
             ctx.sample(|| serde_json::to_value(&c).unwrap());
+            // smallest first: a rayon batch with ONE failing element reproduces on every run, mixed batches need luck
+            let size = match &c {
+                Case::Rayon { kinds } => kinds.iter().filter(|k| matches!(**k, 2 | 3 | 5)).count() as u64,
+                _ => 1,
+            };
             for (k, w) in f {
-                ctx.violation(&k, w, serde_json::to_value(&c).unwrap(), 1);
+                ctx.violation(&k, w, serde_json::to_value(&c).unwrap(), size);
             }
             if ctx.out_of_time() {
                 break;
@@ -813,6 +827,12 @@ impl Prop for C18 {
             Err(e) => return ReplayOutcome { violations: vec![("bad-replay-file".into(), e.to_string())], observation: String::new() },
         };
         let (f, states, _, _, sig) = run_case(&c, Tier::Thorough);
+        // the number of distinct outcomes a real rayon pool happens to show varies from run to run: it is not part of the
+        // observation that two replays must agree on (the violation keys are)
+        let sig = match &c {
+            Case::Rayon { kinds } => format!("rayon:n{}", kinds.len()),
+            _ => sig,
+        };
         ReplayOutcome { violations: f, observation: format!("{sig} states={states}") }
     }
 }
